@@ -192,6 +192,7 @@ def oracle(ctx):
             if not torch.allclose(x_, y_, rtol=1e-5, atol=1e-7):
                 ctx.fail("oracle", "mingrad:%s:%s" % (fwd, nm), {"forward": fwd}, x_, y_)
     backward_options_probe(ctx)
+    object_param_krylov_probe(ctx)
 
 
 def backward_options_probe(ctx):
@@ -234,6 +235,78 @@ def backward_options_probe(ctx):
             elif c2 - c1 < 1:
                 ctx.fail("oracle", "rootgrad:backward-method-ignored:second-order", info, {"calls_second_backward": c2 - c1},
                          "the given solver also runs when the backward pass is differentiated")
+
+
+def object_param_krylov_probe(ctx):
+    """parameters held by the function's object x iterative backward solver x second order (fix F31): the transposed
+    Jacobian solve goes through the implicit solve path, whose own backward must see the object's tensors"""
+    import xitorch as xt
+    from xitorch.optimize import rootfinder
+    for n in (4, 8):
+        g = torch.Generator().manual_seed(ctx.seed + 3 * n)
+        a0 = 0.2 * torch.randn(n, dtype=DT, generator=g)
+        b0 = 0.3 * torch.randn(n, dtype=DT, generator=g)
+        K = 0.1 * torch.randn(n, n, dtype=DT, generator=g)
+        w = torch.cos(torch.arange(n, dtype=DT))
+
+        def res(y, a, b):
+            return y - (b + a * torch.sin(y @ K.T + y) * 0.6)
+
+        def reference(a, b):
+            y = torch.zeros(n, dtype=DT)
+            for _ in range(300):
+                y = b.detach() + a.detach() * torch.sin(y @ K.T + y) * 0.6
+            for _ in range(3):
+                J = torch.eye(n, dtype=DT) - torch.diag(a * torch.cos(y @ K.T + y) * 0.6) @ (K + torch.eye(n, dtype=DT))
+                y = y - torch.linalg.solve(J, res(y, a, b))
+            return y
+
+        def g12(yfn, a, b):
+            y = yfn()
+            g1 = torch.autograd.grad((y * w).sum(), (a, b), create_graph=True)
+            g2 = torch.autograd.grad((g1[0] * w).sum() + (g1[1] * w ** 2).sum(), (a, b))
+            return [t.detach() for t in list(g1) + list(g2)]
+        ar, br = a0.clone().requires_grad_(), b0.clone().requires_grad_()
+        want = g12(lambda: reference(ar, br), ar, br)
+        for kind in ("EditableModule", "nn.Module"):
+            for bck in (dict(method="bicgstab", rtol=1e-12, atol=1e-14), dict(method="cg", rtol=1e-12, atol=1e-14)):
+                a, b = a0.clone().requires_grad_(), b0.clone().requires_grad_()
+                if kind == "EditableModule":
+                    class Mod(xt.EditableModule):
+                        def __init__(self):
+                            self.a, self.b = a, b
+
+                        def f(self, y):
+                            return res(y, self.a, self.b)
+
+                        def getparamnames(self, methodname, prefix=""):
+                            return [prefix + "a", prefix + "b"]
+                    mod = Mod()
+                    fobj, leaves = mod.f, (a, b)
+                else:
+                    class Net(torch.nn.Module):
+                        def __init__(self):
+                            super().__init__()
+                            self.a, self.b = torch.nn.Parameter(a0.clone()), torch.nn.Parameter(b0.clone())
+
+                        def forward(self, y):
+                            return res(y, self.a, self.b)
+                    mod = Net()
+                    fobj, leaves = mod.forward, (mod.a, mod.b)
+                info = {"function_kind": kind, "unknowns": n, "bck_options": {k: v for k, v in bck.items()}}
+                try:
+                    with warnings.catch_warnings():
+                        warnings.simplefilter("ignore")
+                        got = g12(lambda: rootfinder(fobj, torch.zeros(n, dtype=DT), params=(), method="broyden1", f_tol=1e-13, x_tol=1e-13,
+                                                     bck_options=bck), *leaves)
+                except Exception as e:
+                    ctx.fail("oracle", "rootgrad:object-params:exception", info, repr(e)[:300], "first and second order gradients")
+                    continue
+                ctx.count(("object-param-krylov", kind, n, bck["method"]), nontrivial=True)
+                for nm, x_, y_ in zip(("da", "db", "d2a", "d2b"), got, want):
+                    if not torch.allclose(x_, y_, rtol=1e-5, atol=1e-7):
+                        ctx.fail("oracle", "rootgrad:object-params:%s:%s" % (bck["method"], nm), info, x_, y_)
+                        break
 
 
 def search(ctx):
